@@ -29,11 +29,11 @@ RULE = RULE + (" || AXI4 twins: AXIArbiter / AXIDecoder / AXIInterconnectShared 
                "hold rule on all ten DUT-driven channel ends; progress and round-robin fairness; an exhaustive sweep of lock windows")
 
 
-def st_case(tier):
+def st_case(tier, deep=False):
     @st.composite
     def case(draw):
-        kind = draw(st.sampled_from(["shared", "shared", "crossbar", "crossbar", "arbiter", "decoder", "p2p"]))
-        M = 1 if kind in ("decoder", "p2p") else draw(st.integers(1, 3))
+        kind = draw(st.sampled_from(["shared", "shared", "crossbar", "crossbar", "arbiter", "decoder", "p2p"])) if not deep else "arbiter"
+        M = 1 if kind in ("decoder", "p2p") else draw(st.integers(2 if deep else 1, 3))
         S = 1 if kind in ("arbiter", "p2p") else draw(st.integers(1, 3))
         wins = []
         for idx in draw(st.permutations(list(range(len(WINDOWS))))):
@@ -52,13 +52,22 @@ def st_case(tier):
                 ops.append({"we": draw(st.integers(0, 1)), "addr": wins[j][0] + 4 * word, "data": draw(st.integers(0, 0xffffffff)),
                             "strb": draw(st.sampled_from([15, 15, 3, 8, 5]))})
             progs.append(ops)
-        multi = kind == "arbiter" and draw(st.booleans())      # the arbiter alone supports several outstanding requests
+        multi = deep or (kind == "arbiter" and draw(st.booleans()))      # the arbiter alone supports several outstanding requests
+        if deep:
+            # deep queues: one master issues a run of requests of one direction over its four words (only a fifth write to the
+            # same word has to wait), the others compete in the same direction, so that many requests are outstanding at once
+            d = draw(st.integers(0, 1))
+            mm = draw(st.integers(0, M - 1))
+            for m in range(M):
+                n_ = draw(st.integers(5, 10)) if m == mm else draw(st.integers(1, 4))
+                progs[m] = [{"we": d if draw(st.integers(0, 7)) else 1 - d, "addr": wins[0][0] + 4 * (m * 4 + (k_ % 4)),
+                             "data": draw(st.integers(0, 0xffffffff)), "strb": 15} for k_ in range(n_)]
         return {"kind": kind, "M": M, "S": S, "wins": [list(w) for w in wins], "progs": progs,
-                "K": draw(st.sampled_from([2, 4])) if multi else 1,
+                "K": (draw(st.sampled_from([2, 4, 6, 8])) if not deep else draw(st.sampled_from([4, 5, 6, 8]))) if multi else 1,
                 # data before address only where no decoder is involved (known finding axil-decoder-w-before-aw)
                 "w_after_aw": draw(st.booleans()) if kind in ("arbiter", "p2p") else True,
                 "ms": [axil.st_chan_scheds(draw) for _ in range(M)], "ss": [axil.st_chan_scheds(draw) for _ in range(S)],
-                "Q": draw(st.sampled_from([1, 2, 4])), "wait_valid": draw(st.booleans()),
+                "Q": draw(st.sampled_from([1, 2, 4, 8])) if not deep else draw(st.sampled_from([4, 8, 8])), "wait_valid": draw(st.booleans()),
                 "gm": draw(st.one_of(st.none(), st.integers(0, 999))), "gs": draw(st.one_of(st.none(), st.integers(0, 999))),
                 "seed": draw(st.integers(0, 2 ** 16))}
     return case()
@@ -184,4 +193,6 @@ def subchecks():
     return [
         Sub("axilite-interconnect", run_case, strategy=st_case, examples=(1000, 50000), timeout=(900, 20000),
             rule="generated AXI-Lite topologies, maps, programs and five-channel schedules"),
+        Sub("axilite-deep-queues", run_case, strategy=lambda tier: st_case(tier, deep=True), examples=(400, 12000), timeout=(900, 20000),
+            rule="AXILiteArbiter with 4..8 requests of one direction outstanding at a slave that queues them, other masters competing"),
     ] + c08_axi.subchecks()
